@@ -493,7 +493,7 @@ func c09SharedUnit(c *core.Ctx) {
 func init() {
 	core.Register(&core.Check{
 		ID:   "C09",
-		Rule: "for every catalogued indicator, base strategy x configuration, every decorator and a quarter (thorough: all) of the compound wrappers: (i) every ordered pair and four triples of sequential Compute calls on ONE instance with inputs of lengths {0,w,w+2,2w+1} compared with fresh instances, receiver dump compared after every call; (ii) two concurrent Compute calls on one instance with different inputs explored by DPOR (all traces) with the happens-before race detector and a receiver-immutability invariant evaluated at every scheduling point, plus an auxiliary delay-bounded (d<=1) search that assumes no independence, cut at 400 executions per scenario (counted); (iii) Compute / rendered Report / Compute / Report on one strategy instance compared with fresh instances; (iv) one strategy object shared by two compounds running concurrently; (v) every ordered pair of up to four configurations spread over the box: an instance built as A, used, then reconfigured IN PLACE (exported fields assigned recursively through sub-indicators, members and decorated strategies) to B must equal a fresh B, and a zero value given the exported fields of a constructor-built strategy must equal it; (vi) per strategy a series with zero-volume and zero-range bars run with the race detector for Compute and Report, inputs compared with their pristine dump; states = call sequences + concurrent scenarios, non-trivial = concurrent scenarios",
+		Rule: "for every catalogued indicator, base strategy x configuration, every decorator and a quarter (thorough: all) of the compound wrappers: (i) every ordered pair and four triples of sequential Compute calls on ONE instance with inputs of lengths {0,w,w+2,2w+1} compared with fresh instances, receiver dump compared after every call; (ii) two concurrent Compute calls on one instance with different inputs explored by DPOR (all traces) with the happens-before race detector and a receiver-immutability invariant evaluated at every scheduling point, plus an auxiliary delay-bounded (d<=1) search that assumes no independence, cut at 400 executions per scenario (counted); (iii) Compute / rendered Report / Compute / Report on one strategy instance compared with fresh instances; (iv) one strategy object shared by two compounds running concurrently; (v) every ordered pair of up to four configurations spread over the box: an instance built as A, used, then reconfigured IN PLACE (exported fields assigned recursively through sub-indicators, members and decorated strategies) to B must equal a fresh B, and a zero value given the exported fields of a constructor-built strategy must equal it; (vi) per strategy a series with zero-volume and zero-range bars run with the race detector for Compute and Report, inputs compared with their pristine dump; (vii) eight basic building blocks (Sma, Ema, Wma, MovingSum, MovingMax, MovingMin, MovingStd, BollingerBands) instantiated with float64, float32, int, int32 and int64: every ordered sequence of three element types x periods {2,4}, the result for an element type is the same wherever in a sequence it is computed; states = call sequences + concurrent scenarios, non-trivial = concurrent scenarios",
 		Assume: []string{"race freedom is decided on instrumented accesses (fields through pointers, captured mutated variables, maps, slice elements) in every explored execution; a free-running -race pass is not part of this check",
 			"configurations: the quick period boxes of the catalogue"},
 		Units: func(tier string) []core.Unit {
@@ -547,6 +547,11 @@ func init() {
 						c09LiteralStrat(c, e, cfg)
 					}
 				}})
+			}
+			// (vii) element types: results do not depend on which instances of which element type computed before
+			for _, k := range typedKinds() {
+				k := k
+				us = append(us, core.Unit{Key: "element-types:" + k.name, Cost: 10, Run: func(c *core.Ctx) { c09TypedUnit(c, k) }})
 			}
 			for i, e := range wrapperEntries() {
 				e := e
